@@ -30,8 +30,8 @@ claimed = {
          "os.ReadFile stubbed as a function of the path; sync.Mutex as ghost flag; no interleavings are explored (not encodable with this technique).", "A3 C03"),
  "C05": ("Regions of the day loop lifted verbatim: daily record iff interval day, yearly record iff day-of-year equals OUTDAY (with counter reset), exactly one crop record per finished cycle over k<=4 sub-steps, and the day on which the yearly record falls against the configured date in every simulated year (open known finding).",
          "WriteLine stubbed and counted; Water/PhytoOut/Nitro stubbed in the sub-step loop (interpreter replay); field counts per column kind and whole-run record counts are outside.", "A3 C05"),
- "C08": ("Potential ET cap/non-negativity for ET methods 1,2,5 (crop branch), activity factors, and the uptake distribution/redistribution of Evatra (lifted regions) for n<=3 layers with share abstraction: uptake >= 0, none below roots or groundwater, sum <= potential transpiration, actual <= potential ET, stress ratios in [0,1]; daily uptake <= plant-available water over k sub-steps. ET methods 3 and 4 with symbolic weather at four concrete (latitude, day) pairs: reference ET >= 0, potential ET in [0, 0.65].",
-         "Real arithmetic; quotient shares abstracted by share variables with linear lemmas plus defining equations; methods 3/4 and the bare-soil branch outside.", "A3 C08"),
+ "C08": ("Potential ET cap/non-negativity for ET methods 1,2,5 (crop branch), activity factors, and the uptake distribution/redistribution of Evatra (lifted regions) for n<=3 layers with share abstraction: uptake >= 0, none below roots or groundwater, sum <= potential transpiration, actual <= potential ET, stress ratios in [0,1]; daily uptake <= plant-available water over k sub-steps. ET methods 3 and 4 with symbolic weather at four concrete (latitude, day) pairs: reference ET >= 0, potential ET in [0, 0.65]; bare-soil branch (all five methods): potential ET in [0, 0.6], all of it evaporation.",
+         "Real arithmetic; quotient shares abstracted by share variables with linear lemmas plus defining equations; methods 3/4 only at the listed (latitude, day) instances.", "A3 C08"),
  "C10": ("One-step induction of the fertiliser, irrigation and tillage cursors (lifted from Nitro/Run), the same-day shift loops and the fertiliser table split (lifted from Input/dueng) for k<=4 events with symbolic dates and amounts. Schedule file readers (fertiliser, tillage, irrigation, rotation part of Input) executed on token files: pre-start events dropped, others kept in order, dates strictly ascending, never early, at most one day late.",
          "Event-log writers stubbed; schedule file readers and pre-start drop outside. Schedule readers are regions of Input with Session.Open replaced by a scanner over harness lines (natively real files).", "A3 C10"),
  "C11": ("Reduced to termination of the fertiliser-prediction day-length search: for every latitude in [49.2,65] N day 150 is longer than 14 h and day 172 longer than 16 h (uninterpreted sin/cos/asin with natively evaluated lemma points), the real loops at 45/50/55/60 degrees; non-termination below ~48.6 degrees is an open known finding. Isolation of concurrent runs is outside (schedules). The real doConcurrentBatchRun under a sequential select abstraction (every arrival order of results and log messages, 1-3 lines x 1-2 slots): every line started exactly once, every result collected, error count = failed results, the summary lists every failed run exactly once and no successful one, no deadlock.",
